@@ -509,6 +509,10 @@ fn run_inner(scn: &Scenario, d: &Driving, out: &mut RunOut) {
             }
             done += frames_in_call;
             out.calls += 1;
+            if d.resume1 && done < target && frames_in_call > 0 && matches!(info.stop_reason, EmulationStopReason::Completed) {
+                // the call that resumed after a breakpoint stop has delivered a frame: the host looks at it
+                out.obs.push(observe(&mut e, scn.m128, done, audio));
+            }
             if d.drain == Drain::Returns {
                 drain_audio(&mut e, &mut audio);
             }
